@@ -1,0 +1,22 @@
+//go:build verif
+
+package pool
+
+import "sync/atomic"
+
+// yieldHook is a verification-only hook (build tag verif): when set, it is called at the pool's
+// synchronisation points so that a test harness can decide the order of these events.
+var yieldHook atomic.Value // of *func(label string)
+
+// SetYieldHook installs (or, with nil, removes) the verification yield hook.
+func SetYieldHook(f func(label string)) {
+	yieldHook.Store(&f)
+}
+
+func verifYield(label string) {
+	f, _ := yieldHook.Load().(*func(label string))
+	if f == nil || *f == nil {
+		return
+	}
+	(*f)(label)
+}
